@@ -2,6 +2,9 @@ package main
 
 import (
 	"fmt"
+	"os"
+	"regexp"
+	"runtime/debug"
 	"go/token"
 	"go/types"
 	"sort"
@@ -12,7 +15,7 @@ import (
 
 func NewEngine(ld *Loader) *Engine {
 	eng := &Engine{prog: ld.prog, ld: ld, specs: map[string]*FuncSpec{}, stable: map[string]bool{}, ghostVars: map[string]bool{},
-		guarded: map[string]string{}, dropped: map[string]int{}, assumes: map[string]bool{}, maxInline: 6}
+		guarded: map[string]string{}, dropped: map[string]int{}, assumes: map[string]bool{}, maxInline: 3, inlineMax: 60}
 	for path, ps := range ld.pkgSpecs {
 		for _, fs := range ps.Funcs {
 			fs.PkgPath = path
@@ -72,6 +75,9 @@ func (eng *Engine) Verify(fn *ssa.Function, spec *FuncSpec, tags map[string]bool
 		if r := recover(); r != nil {
 			res.Func = e.funcName()
 			res.Err = fmt.Sprint(r)
+			if os.Getenv("VERIF_DEBUG") != "" {
+				fmt.Fprintf(os.Stderr, "%s: %v\n%s\n", res.Func, r, debug.Stack())
+			}
 		}
 	}()
 	res.Func = e.funcName()
@@ -94,6 +100,9 @@ func (eng *Engine) Verify(fn *ssa.Function, spec *FuncSpec, tags map[string]bool
 	for _, p := range fn.Params {
 		v := Val{T: e.s.declConst("p_"+sanitize(p.Name()), e.s.sortOf(p.Type())), Typ: p.Type()}
 		e.wf(v)
+		if e.s.sortOf(p.Type()) == "Ref" {
+			e.s.assert("(>= " + v.T + " 0)")
+		}
 		args = append(args, v)
 	}
 	for _, fv := range fn.FreeVars {
@@ -153,7 +162,9 @@ func (eng *Engine) Verify(fn *ssa.Function, spec *FuncSpec, tags map[string]bool
 	return res
 }
 
-// Text renders the SMT-LIB script of an obligation.
+// Text renders the SMT-LIB script of an obligation: the prefix of the function's script up to the
+// obligation, sliced to the cone of influence of guard and goal (dropping an assumption that shares
+// no symbol, transitively, with the goal can only make the obligation harder to discharge).
 func (o *Obligation) Text(solver string) string {
 	var b strings.Builder
 	if solver == "cvc5" {
@@ -162,22 +173,192 @@ func (o *Obligation) Text(solver string) string {
 		b.WriteString("(set-option :produce-models true)\n")
 	}
 	b.WriteString(o.Script.preamble())
-	body := strings.Join(o.Script.decls, "\n") + "\n" + strings.Join(o.Script.lines[:o.Prefix], "\n") + "\n"
-	if solver == "z3old" {
-		body = strings.ReplaceAll(body, "(bv2nat ", "(bv2int ")
+	decls, lines := o.Script.slice(o.Prefix, o.Guard+" "+o.Goal)
+	body := strings.Join(decls, "\n") + "\n" + strings.Join(lines, "\n") + "\n"
+	g, goal := o.Guard, not(o.Goal)
+	fix := func(t string) string {
+		if solver == "z3old" {
+			t = strings.ReplaceAll(t, "(bv2nat ", "(bv2int ")
+		}
+		t = nullRe.ReplaceAllString(t, "${1}0${2}")
+		return nullRe.ReplaceAllString(t, "${1}0${2}")
 	}
-	b.WriteString(body)
-	g, goal := o.Guard, o.Goal
-	if solver == "z3old" {
-		g = strings.ReplaceAll(g, "(bv2nat ", "(bv2int ")
-		goal = strings.ReplaceAll(goal, "(bv2nat ", "(bv2int ")
-	}
+	b.WriteString(fix(body))
 	if g != "true" {
-		b.WriteString("(assert " + g + ")\n")
+		b.WriteString("(assert " + fix(g) + ")\n")
 	}
-	b.WriteString("(assert " + not(goal) + ")\n")
+	b.WriteString("(assert " + fix(goal) + ")\n")
 	b.WriteString("(check-sat)\n(get-model)\n")
 	return b.String()
+}
+
+var symRe = regexp.MustCompile(`[A-Za-z_][A-Za-z0-9_]*`)
+
+type lineInfo struct {
+	def     string   // name defined (define-fun) or ""
+	syms    []string // declared or defined names mentioned directly
+	trigger []string // assertions: declared names reachable from the consequent (through definitions)
+}
+
+// index tokenizes the script once (called before solving, single-threaded).
+func (s *Script) index() {
+	if s.lineInfo != nil && len(s.lineInfo) == len(s.lines) {
+		return
+	}
+	s.declName = make([]string, len(s.decls))
+	known := map[string]bool{}
+	for i, d := range s.decls {
+		if strings.HasPrefix(d, "(declare-const ") || strings.HasPrefix(d, "(declare-fun ") {
+			f := strings.Fields(d)
+			s.declName[i] = f[1]
+			known[f[1]] = true
+		}
+	}
+	isDef := map[string]bool{}
+	for _, l := range s.lines {
+		if strings.HasPrefix(l, "(define-fun ") {
+			n := strings.Fields(l)[1]
+			known[n] = true
+			isDef[n] = true
+		}
+	}
+	closure := map[string]map[string]bool{} // def -> declared names reachable
+	direct := func(t string, skip string) []string {
+		var out []string
+		seen := map[string]bool{}
+		for _, x := range symRe.FindAllString(stripStrings(t), -1) {
+			if known[x] && !seen[x] && x != skip {
+				seen[x] = true
+				out = append(out, x)
+			}
+		}
+		return out
+	}
+	expand := func(syms []string) map[string]bool {
+		out := map[string]bool{}
+		for _, x := range syms {
+			if isDef[x] {
+				for y := range closure[x] {
+					out[y] = true
+				}
+			} else {
+				out[x] = true
+			}
+		}
+		return out
+	}
+	s.lineInfo = make([]lineInfo, len(s.lines))
+	for i, l := range s.lines {
+		li := lineInfo{}
+		if strings.HasPrefix(l, "(define-fun ") {
+			li.def = strings.Fields(l)[1]
+			li.syms = direct(l[len("(define-fun ")+len(li.def):], li.def)
+			closure[li.def] = expand(li.syms)
+		} else {
+			li.syms = direct(l, "")
+			cons := l
+			// (assert (=> G X)): relevance is decided by X alone
+			if strings.HasPrefix(l, "(assert (=> ") {
+				parts := splitSexp(l[len("(assert (=> ") : len(l)-2])
+				if len(parts) == 2 {
+					cons = parts[1]
+				}
+			}
+			for y := range expand(direct(cons, "")) {
+				li.trigger = append(li.trigger, y)
+			}
+		}
+		s.lineInfo[i] = li
+	}
+	s.known = known
+	s.isDef = isDef
+	s.closure = closure
+}
+
+func stripStrings(t string) string {
+	if !strings.Contains(t, "\"") {
+		return t
+	}
+	var b strings.Builder
+	in := false
+	for i := 0; i < len(t); i++ {
+		if t[i] == '"' {
+			in = !in
+			continue
+		}
+		if !in {
+			b.WriteByte(t[i])
+		}
+	}
+	return b.String()
+}
+
+func (s *Script) slice(prefix int, seed string) (decls, lines []string) {
+	if s.lineInfo == nil || len(s.lineInfo) < prefix || os.Getenv("VERIF_NOSLICE") != "" {
+		return s.decls, s.lines[:prefix]
+	}
+	need := map[string]bool{}
+	addNeed := func(t string) bool {
+		ch := false
+		if !need[t] {
+			need[t] = true
+			ch = true
+		}
+		if s.isDef[t] {
+			for y := range s.closure[t] {
+				if !need[y] {
+					need[y] = true
+					ch = true
+				}
+			}
+		}
+		return ch
+	}
+	for _, t := range symRe.FindAllString(stripStrings(seed), -1) {
+		if s.known[t] {
+			addNeed(t)
+		}
+	}
+	inc := make([]bool, prefix)
+	for changed := true; changed; {
+		changed = false
+		for i := prefix - 1; i >= 0; i-- {
+			if inc[i] {
+				continue
+			}
+			li := &s.lineInfo[i]
+			take := false
+			if li.def != "" {
+				take = need[li.def]
+			} else {
+				for _, t := range li.trigger {
+					if need[t] {
+						take = true
+						break
+					}
+				}
+			}
+			if take {
+				inc[i] = true
+				for _, t := range li.syms {
+					if addNeed(t) {
+						changed = true
+					}
+				}
+			}
+		}
+	}
+	for i, d := range s.decls {
+		if s.declName[i] == "" || need[s.declName[i]] {
+			decls = append(decls, d)
+		}
+	}
+	for i := 0; i < prefix; i++ {
+		if inc[i] {
+			lines = append(lines, s.lines[i])
+		}
+	}
+	return
 }
 
 // callsTo reports whether fn contains a static call (directly or through closures) to one of keys.
@@ -225,3 +406,29 @@ func specHasTag(sp *FuncSpec, tag string, kinds ...ClauseKind) bool {
 }
 
 var _ = types.Typ
+
+var nullRe = regexp.MustCompile(`([ (])null([ )])`)
+
+type valInv struct {
+	fs *FuncSpec
+	c  *Clause
+}
+
+// valInvs: invariants declared for values of struct type t held in maps.
+func (eng *Engine) valInvs(t types.Type) []valInv {
+	n, ok := t.(*types.Named)
+	if !ok || n.Obj().Pkg() == nil {
+		return nil
+	}
+	fs := eng.specs[n.Obj().Pkg().Path()+"::valinv:"+n.Obj().Name()]
+	if fs == nil {
+		return nil
+	}
+	var out []valInv
+	for _, c := range fs.Clauses {
+		if c.Kind == KValInv {
+			out = append(out, valInv{fs, c})
+		}
+	}
+	return out
+}
